@@ -7,7 +7,7 @@ for d in $(if [ $# -gt 1 ]; then for x in "$@"; do echo seeded/$x/; done; else e
   WT=/tmp/wt_suite_$$_$id
   git -C /repo worktree add -q --detach "$WT" HEAD || continue
   if git -C "$WT" apply "$PWD/$d/patch.diff" 2>/dev/null; then
-    echo "$id $(VERIF_SUITE_DIR=$WT python3 tools/baseline_check.py -x --no-header -p no:randomly 2>/dev/null | head -1)"
+    echo "$id $(VERIF_SUITE_DIR=$WT python3 tools/baseline_check.py 2>/dev/null | head -1)"
   else
     echo "$id patch does not apply"
   fi
